@@ -13,616 +13,7 @@ use std::mem;
 
 verus! {
 
-//@include flow.inc
-
-//@include frames.inc
-
-//@include state.inc
-
-//@include stream_send.inc
-
-// ---- the scheduler's queues: opaque; only the membership flag they set on the stream is specified
-// (store::Queue<N>::push sets N::is_queued(stream); verified FIFO behaviour is a separate Kani obligation)
-pub struct QueueSend { pub ghost_len: usize }
-pub struct QueueCapacity { pub ghost_len: usize }
-pub struct QueueOpen { pub ghost_len: usize }
-
-impl QueueSend {
-    #[verifier::external_body]
-    pub fn push(&mut self, stream: &mut Stream) -> (r: bool)
-        requires !old(stream).is_pending_open,   // the debug_assert in NextSend::set_queued
-        ensures *final(stream) == (Stream { is_pending_send: true, ..*old(stream) }),
-    { unimplemented!() }
-}
-impl QueueCapacity {
-    #[verifier::external_body]
-    pub fn push(&mut self, stream: &mut Stream) -> (r: bool)
-        ensures *final(stream) == (Stream { is_pending_send_capacity: true, ..*old(stream) }),
-    { unimplemented!() }
-}
-
-pub struct Counts { pub tag: u8 }
-
-#[derive(PartialEq, Eq, Structural, Clone, Copy, Debug)]
-pub enum UserError {
-    InactiveStreamId,
-    UnexpectedFrameType,
-    PayloadTooBig,
-    Other(u8),
-}
-use UserError::*;
-
-// ---- the stream store, abstractly.
-// `store::Ptr` is a (key, &mut Store) pair; Verus cannot return `&mut` into a container, so a Ptr handed out by
-// `Queue::pop` is modelled as the OWNED stream taken out of the store, and the store keeps, as ghost state, the
-// sum of the send capacity assigned to the streams still inside (`others`).  Where the real code lets a Ptr go
-// out of scope (`continue`) or consumes it (`Counts::transition_after`), the stream returns to the store:
-// `Store::put_back` is inserted by listed substitutions before each `continue`; it REQUIRES the stream
-// invariant again, which is what turns "every path leaves the stream well-formed" into proof obligations.
-pub struct Store { pub others: Ghost<int> }
-
-/// I-cap / I-send-pool for one stream, as kept by every function of send.rs / prioritize.rs:
-///   0 <= assigned <= max(window, 0), assigned <= requested,
-///   a stream whose send half is closed keeps capacity only for data that is still buffered
-///   (so: closed and flushed  ==>  assigned == 0 — nothing leaks when the stream is forgotten).
-pub open spec fn stream_inv(s: Stream) -> bool {
-    &&& wf_send(s)
-    // I-cap for a closed send half: it keeps capacity only for data still buffered (so: closed and flushed ==> nothing
-    // assigned — nothing leaks when the stream is forgotten), and unless its data is about to be discarded it asks
-    // for no more than that data
-    &&& s.state.send_closed() ==> (s.buffered_send_data == 0 ==> s.send_flow.a() == 0)
-    &&& s.state.send_closed() ==> (s.state.scheduled_discard() || s.buffered_send_data == 0 || s.requested_send_capacity <= s.buffered_send_data)
-    &&& s.buffered_send_data <= 0xff_ffff_ffff     // memory-bounded; keeps the usize/u32 arithmetic of the bodies exact
-    // buffered_send_data accounts for (at least) every queued DATA byte; the rest is the tail of a frame the
-    // codec is writing
-    &&& queued_bytes(s.pending_send@) <= s.buffered_send_data
-    // a stream waits for a concurrency slot OR for its PUSH_PROMISE, never both (Send::send_headers)
-    &&& !(s.is_pending_open && s.is_pending_push)
-}
-
-impl Store {
-    pub open spec fn sum(self) -> int { self.others@ }
-
-    #[verifier::external_body]
-    pub fn put_back(&mut self, stream: Stream)
-        requires stream_inv(stream),
-        ensures final(self).sum() == old(self).sum() + stream.send_flow.a(),
-    { unimplemented!() }
-}
-
-impl QueueSend {
-    /// store::Queue<NextSend>::pop: the head of the list, un-flagged; None iff the list is empty.
-    #[verifier::external_body]
-    pub fn pop(&mut self, store: &mut Store) -> (r: Option<Stream>)
-        requires old(store).sum() >= 0,
-        ensures
-            match r {
-                Some(s) => stream_inv(s) && !s.is_pending_send && !s.is_pending_open && !s.is_pending_push
-                    && 0 <= s.send_flow.a() <= old(store).sum() && final(store).sum() == old(store).sum() - s.send_flow.a()
-                    // I-sched (ASSUMED, kept by every site that pushes onto pending_send or empties a queue): a stream
-                    // waits on pending_send only with frames queued, with a reset scheduled, or after its queue was
-                    // cleared by a reset/error (then it is closed)
-                    && ((s.pending_send@.len() == 0 && s.state.scheduled() is None) ==> s.state.closed()),
-                None => final(store).sum() == old(store).sum(),
-            },
-    { unimplemented!() }
-}
-
-impl QueueSend {
-    /// The same `pop`, called while no DATA frame is inside the codec (`in_flight_data_frame == Nothing`, the
-    /// precondition of pop_frame): then every buffered byte of every stream is in its queue (ASSUMED store-wide
-    /// consequence of I-cap: buffered_send_data == queued bytes + the in-flight tail).
-    #[verifier::external_body]
-    pub fn pop_idle(&mut self, store: &mut Store) -> (r: Option<Stream>)
-        requires old(store).sum() >= 0,
-        ensures
-            match r {
-                Some(s) => stream_inv(s) && !s.is_pending_send && !s.is_pending_open && !s.is_pending_push
-                    && 0 <= s.send_flow.a() <= old(store).sum() && final(store).sum() == old(store).sum() - s.send_flow.a()
-                    && ((s.pending_send@.len() == 0 && s.state.scheduled() is None) ==> s.state.closed())
-                    && queued_bytes(s.pending_send@) == s.buffered_send_data,
-                None => final(store).sum() == old(store).sum(),
-            },
-    { unimplemented!() }
-}
-
-impl QueueCapacity {
-    /// store::Queue<NextSendCapacity>::pop
-    #[verifier::external_body]
-    pub fn pop(&mut self, store: &mut Store) -> (r: Option<Stream>)
-        requires old(store).sum() >= 0,
-        ensures
-            match r {
-                Some(s) => stream_inv(s) && !s.is_pending_send_capacity
-                    && 0 <= s.send_flow.a() <= old(store).sum() && final(store).sum() == old(store).sum() - s.send_flow.a(),
-                None => final(store).sum() == old(store).sum(),
-            },
-    { unimplemented!() }
-}
-
-impl QueueOpen {
-    #[verifier::external_body]
-    pub fn push(&mut self, stream: &mut Stream) -> (r: bool)
-        requires !old(stream).is_pending_send,   // the debug_assert in NextOpen::set_queued
-        ensures *final(stream) == (Stream { is_pending_open: true, ..*old(stream) }),
-    { unimplemented!() }
-}
-
-impl Counts {
-    /// Counts::transition_after consumes the Ptr: the stream goes back to the store (or is forgotten when
-    /// released).  ASSUMED contract here; the real body is verified by the Kani harness counts_transition_after.
-    /// The precondition is the capacity-leak obligation: a stream that is about to be forgotten holds no capacity.
-    #[verifier::external_body]
-    pub fn transition_after(&mut self, stream: Stream, is_reset_counted: bool, store: &mut Store)
-        requires
-            stream_inv(stream),
-            stream.released() ==> stream.send_flow.a() == 0,
-        ensures final(store).sum() == old(store).sum() + stream.send_flow.a(),
-    { unimplemented!() }
-}
-
-/// The non-DATA arm of pop_frame: `frame.map(|_| unreachable!())` only changes the payload type parameter.
-pub fn map_non_data(f: QFrame) -> (r: Frame<Prioritized>)
-    requires !(f is Data),
-    ensures
-        match f {
-            Frame::Headers(h) => r == Frame::<Prioritized>::Headers(h),
-            Frame::PushPromise(p) => r == Frame::<Prioritized>::PushPromise(p),
-            Frame::Reset(x) => r == Frame::<Prioritized>::Reset(x),
-            Frame::Other(k) => r == Frame::<Prioritized>::Other(k),
-            Frame::Data(_) => false,
-        },
-{
-    match f {
-        Frame::Headers(h) => Frame::Headers(h),
-        Frame::PushPromise(p) => Frame::PushPromise(p),
-        Frame::Reset(x) => Frame::Reset(x),
-        Frame::Other(k) => Frame::Other(k),
-        Frame::Data(_) => { assert(false); Frame::Other(0) }
-    }
-}
-
-#[derive(PartialEq, Eq, Structural, Clone, Copy, Debug)]
-pub enum InFlightData {
-    Nothing,
-    DataFrame(Key),
-    Drop,
-}
-
-pub struct Prioritize {
-    pub pending_send: QueueSend,
-    pub pending_capacity: QueueCapacity,
-    pub pending_open: QueueOpen,
-    pub flow: FlowControl,
-    pub last_opened_id: StreamId,
-    pub in_flight_data_frame: InFlightData,
-    pub max_buffer_size: usize,
-}
-
-/// `frame.map(|buf| Prioritized { inner: buf.take(len), end_of_stream: eos, stream: key })` of pop_frame
-/// (Data::map + bytes::Buf::take): the payload is limited to `len` bytes, nothing is consumed yet.
-pub fn wrap_prioritized(f: frame::Data<Payload>, len: usize, eos: bool, key: Key) -> (r: frame::Data<Prioritized>)
-    ensures
-        r.stream_id == f.stream_id && r.eos == f.eos,
-        r.data == (Prioritized { inner_rem: f.data.rem, limit: len, end_of_stream: eos, stream: key }),
-{
-    frame::Data { stream_id: f.stream_id, eos: f.eos, data: Prioritized { inner_rem: f.data.rem, limit: len, end_of_stream: eos, stream: key } }
-}
-
-/// `frame.map(|p| { eos = p.end_of_stream; p.inner.into_inner() })` of reclaim_frame_inner: what is left of the
-/// payload after the codec wrote (part of) it, and the remembered END_STREAM.
-pub fn unwrap_prioritized(f: frame::Data<Prioritized>) -> (r: (frame::Data<Payload>, bool))
-    ensures
-        r.0.stream_id == f.stream_id && r.0.eos == f.eos && r.0.data.rem == f.data.inner_rem,
-        r.1 == f.data.end_of_stream,
-{
-    (frame::Data { stream_id: f.stream_id, eos: f.eos, data: Payload { rem: f.data.inner_rem } }, f.data.end_of_stream)
-}
-
-/// I-cap / I-send-pool restricted to one stream
-pub open spec fn wf_send(s: Stream) -> bool {
-    &&& 0 <= s.send_flow.a() <= pos(s.send_flow.w())
-    &&& s.send_flow.a() <= s.requested_send_capacity
-    &&& s.send_flow.w() <= 0x7fff_ffff
-}
-
-pub open spec fn wf_pool(p: Prioritize) -> bool {
-    0 <= p.flow.a() <= 0x7fff_ffff
-}
-
-pub open spec fn min3(a: int, b: int, c: int) -> int {
-    let m = if a < b { a } else { b };
-    if m < c { m } else { c }
-}
-
-impl Prioritize {
-    // assign_connection_capacity<R: Resolve> has two instantiations.  R = Store is VERIFIED below (unbounded number of
-    // waiting streams).  R = store::Ptr (the resolver is the caller's own stream, which may itself be on
-    // pending_capacity and be popped and served by the loop) is the same body, but this aliasing cannot be expressed in
-    // the owned-stream model: for it the following contract is ASSUMED, restricted to the pool and that one stream:
-    // the new capacity is either still in the pool, or assigned to this stream (within its request and its
-    // window), or assigned to other streams (`to_others >= 0`).
-    #[verifier::external_body]
-    pub fn assign_connection_capacity_via_ptr(&mut self, inc: WindowSize, store: &mut Stream, counts: &mut Counts) -> (to_others: Ghost<int>)
-        requires
-            sz_ok(inc),
-            wf_pool(*old(self)),
-            old(self).flow.a() + inc + old(store).send_flow.a() <= 0x7fff_ffff,
-            0 <= old(store).send_flow.a(),
-        ensures
-            to_others@ >= 0,
-            final(self).flow.w() == old(self).flow.w(),
-            final(self).max_buffer_size == old(self).max_buffer_size,
-            final(store).send_flow.w() == old(store).send_flow.w(),
-            final(self).flow.a() + final(store).send_flow.a() + to_others@ == old(self).flow.a() + inc + old(store).send_flow.a(),
-            final(self).flow.a() >= 0,
-            final(store).send_flow.a() >= old(store).send_flow.a(),
-            final(store).send_flow.a() > old(store).send_flow.a() ==> final(store).send_flow.a() <= final(store).requested_send_capacity && final(store).send_flow.a() <= pos(final(store).send_flow.w())
-                && (old(store).state.send_streaming() || old(store).buffered_send_data > 0),
-            final(store).requested_send_capacity == old(store).requested_send_capacity,
-            final(store).buffered_send_data == old(store).buffered_send_data,
-            final(store).state == old(store).state,
-            final(store).pending_send == old(store).pending_send && final(store).key == old(store).key && final(store).id == old(store).id,
-            final(store).is_pending_open == old(store).is_pending_open && final(store).is_pending_push == old(store).is_pending_push,
-            final(self).in_flight_data_frame == old(self).in_flight_data_frame,
-    { unimplemented!() }
-
-    //@extract src/proto/streams/prioritize.rs Prioritize::schedule_send
-    //@subst stream: &mut store::Ptr=>stream: &mut Stream
-    //@spec     ensures
-    //@spec         // queued and the connection task woken iff the stream may send
-    //@spec         old(stream).is_pending_open || old(stream).is_pending_push ==> *final(stream) == *old(stream) && *final(task) == *old(task),
-    //@spec         !old(stream).is_pending_open && !old(stream).is_pending_push ==> *final(stream) == (Stream { is_pending_send: true, ..*old(stream) }) && *final(task) is None,
-    //@spec         final(self).flow == old(self).flow && final(self).in_flight_data_frame == old(self).in_flight_data_frame && final(self).max_buffer_size == old(self).max_buffer_size,
-    //@end
-
-    //@extract src/proto/streams/prioritize.rs Prioritize::try_assign_capacity
-    //@subst stream: &mut store::Ptr=>stream: &mut Stream
-    //@subst cmp::min(=>min_u32(
-    //@subst let _res = self.flow.claim_capacity(assign);=>let _res = self.flow.claim_capacity(assign); assert(_res.is_ok());
-    //@spec     requires
-    //@spec         wf_send(*old(stream)),
-    //@spec         wf_pool(*old(self)),
-    //@spec         !(old(stream).is_pending_open && old(stream).is_pending_push),
-    //@spec     ensures
-    //@spec         wf_send(*final(stream)) && wf_pool(*final(self)),
-    //@spec         // windows untouched, nothing taken away, pool conserved
-    //@spec         final(stream).send_flow.w() == old(stream).send_flow.w() && final(self).flow.w() == old(self).flow.w(),
-    //@spec         final(stream).send_flow.a() >= old(stream).send_flow.a(),
-    //@spec         final(self).flow.a() + final(stream).send_flow.a() == old(self).flow.a() + old(stream).send_flow.a(),
-    //@spec         final(self).max_buffer_size == old(self).max_buffer_size,
-    //@spec         // nothing for a stream still waiting for a concurrency slot
-    //@spec         old(stream).is_pending_open ==> *final(stream) == *old(stream),
-    //@spec         // a stream that wants capacity, whose window has room, gets min(lacking, room, pool)
-    //@spec         (!old(stream).is_pending_open && (old(stream).state.send_streaming() || old(stream).buffered_send_data > 0)) ==>
-    //@spec             final(stream).send_flow.a() - old(stream).send_flow.a() == pos(min3(
-    //@spec                 old(stream).requested_send_capacity - old(stream).send_flow.a(),
-    //@spec                 pos(old(stream).send_flow.w()) - old(stream).send_flow.a(),
-    //@spec                 old(self).flow.a())),
-    //@spec         // what it still lacks although its window has room is queued for (owed-work-is-queued)
-    //@spec         (!old(stream).is_pending_open && (old(stream).state.send_streaming() || old(stream).buffered_send_data > 0)
-    //@spec           && final(stream).send_flow.a() < final(stream).requested_send_capacity && final(stream).send_flow.w() > final(stream).send_flow.a()
-    //@spec           && old(stream).requested_send_capacity > old(stream).send_flow.a() && pos(old(stream).send_flow.w()) > old(stream).send_flow.a())
-    //@spec             ==> final(stream).is_pending_send_capacity,
-    //@spec         // the sender is woken when its reported capacity grew
-    //@spec         final(stream).cap(final(self).max_buffer_size) > old(stream).cap(old(self).max_buffer_size) ==> final(stream).send_task is None && final(stream).send_capacity_inc,
-    //@spec         // frame: only the assigned capacity, the queue flags and the sender's notification change
-    //@spec         *final(stream) == (Stream { send_flow: final(stream).send_flow, send_task: final(stream).send_task, send_capacity_inc: final(stream).send_capacity_inc,
-    //@spec             is_pending_send: final(stream).is_pending_send, is_pending_send_capacity: final(stream).is_pending_send_capacity, ..*old(stream) }),
-    //@spec         final(self).in_flight_data_frame == old(self).in_flight_data_frame,
-    //@end
-
-    //@extract src/proto/streams/prioritize.rs Prioritize::reclaim_all_capacity
-    //@subst self.assign_connection_capacity(available, stream, counts);=>self.assign_connection_capacity_via_ptr(available, stream, counts);
-    //@subst stream: &mut store::Ptr=>stream: &mut Stream
-    //@subst let _res = stream.send_flow.claim_capacity(available);=>let _res = stream.send_flow.claim_capacity(available); assert(_res.is_ok());
-    //@spec     requires
-    //@spec         0 <= old(stream).send_flow.a() && wf_pool(*old(self)),
-    //@spec         old(self).flow.a() + old(stream).send_flow.a() <= 0x7fff_ffff,
-    //@spec     ensures
-    //@spec         final(stream).send_flow.w() == old(stream).send_flow.w() && final(self).flow.w() == old(self).flow.w(),
-    //@spec         final(self).max_buffer_size == old(self).max_buffer_size && final(self).in_flight_data_frame == old(self).in_flight_data_frame,
-    //@spec         // everything the stream held is back in the pool or assigned onwards: nothing leaks, nothing is created
-    //@spec         final(self).flow.a() + final(stream).send_flow.a() <= old(self).flow.a() + old(stream).send_flow.a(),
-    //@spec         final(self).flow.a() >= 0 && final(stream).send_flow.a() >= 0,
-    //@spec         // it holds nothing afterwards, unless it still wants capacity and got some of it straight back
-    //@spec         final(stream).send_flow.a() == 0 || (final(stream).send_flow.a() <= final(stream).requested_send_capacity && final(stream).send_flow.a() <= pos(final(stream).send_flow.w())),
-    //@spec         final(stream).requested_send_capacity == old(stream).requested_send_capacity && final(stream).buffered_send_data == old(stream).buffered_send_data
-    //@spec             && final(stream).state == old(stream).state && final(stream).pending_send == old(stream).pending_send && final(stream).key == old(stream).key
-    //@spec             && final(stream).id == old(stream).id && final(stream).is_pending_open == old(stream).is_pending_open && final(stream).is_pending_push == old(stream).is_pending_push,
-    //@end
-
-    //@extract src/proto/streams/prioritize.rs Prioritize::reclaim_reserved_capacity
-    //@subst self.assign_connection_capacity(reserved, stream, counts);=>self.assign_connection_capacity_via_ptr(reserved, stream, counts);
-    //@subst stream: &mut store::Ptr=>stream: &mut Stream
-    //@subst_re stream\s*\.send_flow\s*\.claim_capacity\(reserved\)\s*\.expect\("window size should be greater than reserved"\);=>let _r = stream.send_flow.claim_capacity(reserved); assert(_r.is_ok());
-    //@spec     requires
-    //@spec         wf_send(*old(stream)) && wf_pool(*old(self)),
-    //@spec         old(self).flow.a() + old(stream).send_flow.a() <= 0x7fff_ffff,
-    //@spec     ensures
-    //@spec         final(stream).send_flow.w() == old(stream).send_flow.w() && final(self).flow.w() == old(self).flow.w(),
-    //@spec         final(self).flow.a() + final(stream).send_flow.a() <= old(self).flow.a() + old(stream).send_flow.a(),
-    //@spec         final(self).flow.a() >= 0,
-    //@spec         // capacity needed for data that is already buffered is kept
-    //@spec         final(stream).send_flow.a() >= (if old(stream).send_flow.a() <= old(stream).buffered_send_data { old(stream).send_flow.a() } else { old(stream).buffered_send_data as int }),
-    //@end
-
-    //@extract src/proto/streams/prioritize.rs Prioritize::reserve_capacity
-    //@subst self.assign_connection_capacity(diff, stream, counts);=>self.assign_connection_capacity_via_ptr(diff, stream, counts);
-    //@subst stream: &mut store::Ptr=>stream: &mut Stream
-    //@subst let _res = stream.send_flow.claim_capacity(diff);=>let _res = stream.send_flow.claim_capacity(diff); assert(_res.is_ok());
-    //@subst cmp::min(capacity, WindowSize::MAX as usize)=>min_usize(capacity, WindowSize::MAX as usize)
-    //@spec     requires
-    //@spec         wf_send(*old(stream)) && wf_pool(*old(self)),
-    //@spec         old(self).flow.a() + old(stream).send_flow.a() <= 0x7fff_ffff,
-    //@spec         old(stream).buffered_send_data <= 0xff_ffff_ffff,
-    //@spec         !(old(stream).is_pending_open && old(stream).is_pending_push),
-    //@spec     ensures
-    //@spec         final(stream).send_flow.w() == old(stream).send_flow.w() && final(self).flow.w() == old(self).flow.w(),
-    //@spec         final(self).in_flight_data_frame == old(self).in_flight_data_frame && final(self).max_buffer_size == old(self).max_buffer_size,
-    //@spec         final(stream).state == old(stream).state && final(stream).pending_send == old(stream).pending_send
-    //@spec             && final(stream).is_pending_open == old(stream).is_pending_open && final(stream).is_pending_push == old(stream).is_pending_push
-    //@spec             && final(stream).key == old(stream).key && final(stream).id == old(stream).id,
-    //@spec         wf_send(*final(stream)) && wf_pool(*final(self)),
-    //@spec         // nothing is created: pool + this stream never grows (what is missing went to other streams)
-    //@spec         final(self).flow.a() + final(stream).send_flow.a() <= old(self).flow.a() + old(stream).send_flow.a(),
-    //@spec         final(self).flow.a() >= 0 && final(stream).send_flow.a() >= 0,
-    //@spec         final(stream).buffered_send_data == old(stream).buffered_send_data,
-    //@spec         // the recorded request: n + buffered (capped), except that raising on a closed send half is a no-op
-    //@spec         capacity + old(stream).buffered_send_data < old(stream).requested_send_capacity ==> final(stream).requested_send_capacity == capacity + old(stream).buffered_send_data,
-    //@spec         capacity + old(stream).buffered_send_data > old(stream).requested_send_capacity && old(stream).state.send_closed() ==> *final(stream) == *old(stream) && final(self).flow == old(self).flow,
-    //@spec         capacity + old(stream).buffered_send_data > old(stream).requested_send_capacity && !old(stream).state.send_closed() ==>
-    //@spec             final(stream).requested_send_capacity == (if capacity + old(stream).buffered_send_data > u32::MAX { u32::MAX as int } else { capacity + old(stream).buffered_send_data }),
-    //@spec         capacity + old(stream).buffered_send_data == old(stream).requested_send_capacity ==> *final(stream) == *old(stream) && final(self).flow == old(self).flow,
-    //@end
-
-    //@extract src/proto/streams/prioritize.rs Prioritize::recv_stream_window_update
-    //@subst stream: &mut store::Ptr=>stream: &mut Stream
-    //@ret r
-    //@spec     requires
-    //@spec         sz_ok(inc) && inc >= 1,
-    //@spec         wf_send(*old(stream)) && wf_pool(*old(self)),
-    //@spec         !(old(stream).is_pending_open && old(stream).is_pending_push),
-    //@spec     ensures
-    //@spec         final(self).flow.w() == old(self).flow.w(),
-    //@spec         final(self).flow.a() + final(stream).send_flow.a() == old(self).flow.a() + old(stream).send_flow.a(),
-    //@spec         // a stream that can never send again ignores the update
-    //@spec         old(stream).state.send_closed() && old(stream).buffered_send_data == 0 ==> r.is_ok() && *final(stream) == *old(stream),
-    //@spec         !(old(stream).state.send_closed() && old(stream).buffered_send_data == 0) ==> (
-    //@spec             if old(stream).send_flow.w() + inc > 0x7fff_ffff {
-    //@spec                 r == Err::<(), Reason>(Reason::FLOW_CONTROL_ERROR) && *final(stream) == *old(stream)
-    //@spec             } else {
-    //@spec                 r.is_ok() && final(stream).send_flow.w() == old(stream).send_flow.w() + inc && wf_send(*final(stream))
-    //@spec             }),
-    //@end
-
-    //@extract src/proto/streams/prioritize.rs Prioritize::queue_frame
-    //@subst queue_frame<B>(=>queue_frame(
-    //@subst frame: Frame<B>=>frame: QFrame
-    //@subst buffer: &mut Buffer<Frame<B>>=>buffer: &mut Buffer
-    //@subst stream: &mut store::Ptr=>stream: &mut Stream
-    //@spec     ensures
-    //@spec         // exactly this frame, at the BACK of this stream's queue
-    //@spec         final(stream).pending_send@ == old(stream).pending_send@.push(frame),
-    //@spec         // scheduled, and the connection task woken, iff the stream may send
-    //@spec         final(stream).is_pending_send == (old(stream).is_pending_send || (!old(stream).is_pending_open && !old(stream).is_pending_push)),
-    //@spec         !old(stream).is_pending_open && !old(stream).is_pending_push ==> *final(task) is None,
-    //@spec         old(stream).is_pending_open || old(stream).is_pending_push ==> *final(task) == *old(task),
-    //@spec         final(stream).send_flow == old(stream).send_flow && final(stream).state == old(stream).state
-    //@spec             && final(stream).buffered_send_data == old(stream).buffered_send_data && final(stream).requested_send_capacity == old(stream).requested_send_capacity
-    //@spec             && final(stream).is_pending_open == old(stream).is_pending_open && final(stream).is_pending_push == old(stream).is_pending_push,
-    //@spec         final(self).flow == old(self).flow,
-    //@end
-
-    //@extract src/proto/streams/prioritize.rs Prioritize::push_back_frame
-    //@subst push_back_frame<B>(=>push_back_frame(
-    //@subst frame: Frame<B>=>frame: QFrame
-    //@subst buffer: &mut Buffer<Frame<B>>=>buffer: &mut Buffer
-    //@subst stream: &mut store::Ptr=>stream: &mut Stream
-    //@spec     requires !old(stream).is_pending_open,   // a stream whose DATA was in the codec has been opened
-    //@spec     ensures
-    //@spec         // the frame goes to the FRONT: it is sent before everything queued later
-    //@spec         final(stream).pending_send@ == seq![frame] + old(stream).pending_send@,
-    //@spec         old(stream).send_flow.a() > 0 ==> final(stream).is_pending_send,
-    //@spec         final(stream).send_flow == old(stream).send_flow && final(stream).state == old(stream).state
-    //@spec             && final(stream).buffered_send_data == old(stream).buffered_send_data,
-    //@spec         final(self).flow == old(self).flow && final(self).in_flight_data_frame == old(self).in_flight_data_frame,
-    //@end
-
-    //@extract src/proto/streams/prioritize.rs Prioritize::clear_queue
-    //@subst clear_queue<B>(=>clear_queue(
-    //@subst buffer: &mut Buffer<Frame<B>>=>buffer: &mut Buffer
-    //@subst stream: &mut store::Ptr=>stream: &mut Stream
-    //@spec     ensures
-    //@spec         final(stream).pending_send@.len() == 0,
-    //@spec         final(stream).buffered_send_data == 0 && final(stream).requested_send_capacity == 0,
-    //@spec         final(stream).send_flow == old(stream).send_flow && final(stream).state == old(stream).state && final(stream).key == old(stream).key
-    //@spec             && final(stream).is_pending_open == old(stream).is_pending_open && final(stream).is_pending_push == old(stream).is_pending_push
-    //@spec             && final(stream).is_pending_send == old(stream).is_pending_send && final(stream).is_pending_send_capacity == old(stream).is_pending_send_capacity
-    //@spec             && final(stream).send_task == old(stream).send_task && final(stream).id == old(stream).id && final(stream).ref_count == old(stream).ref_count
-    //@spec             && final(stream).is_counted == old(stream).is_counted && final(stream).send_capacity_inc == old(stream).send_capacity_inc,
-    //@spec         final(self).flow == old(self).flow,
-    //@spec         // a DATA frame of THIS stream that is inside the codec must not be re-queued when it comes back
-    //@spec         final(self).in_flight_data_frame == (if old(self).in_flight_data_frame == InFlightData::DataFrame(old(stream).key) { InFlightData::Drop } else { old(self).in_flight_data_frame }),
-    //@loop 0     invariant
-    //@loop 0         stream.send_flow == old(stream).send_flow && stream.state == old(stream).state && stream.key == old(stream).key,
-    //@loop 0         stream.is_pending_open == old(stream).is_pending_open && stream.is_pending_push == old(stream).is_pending_push,
-    //@loop 0         stream.is_pending_send == old(stream).is_pending_send && stream.is_pending_send_capacity == old(stream).is_pending_send_capacity,
-    //@loop 0         stream.send_task == old(stream).send_task && stream.id == old(stream).id && stream.ref_count == old(stream).ref_count,
-    //@loop 0         stream.is_counted == old(stream).is_counted && stream.send_capacity_inc == old(stream).send_capacity_inc,
-    //@loop 0         *self == *old(self),
-    //@loop 0     ensures stream.pending_send@.len() == 0,
-    //@loop 0     decreases stream.pending_send@.len(),
-    //@end
-
-    //@extract src/proto/streams/prioritize.rs Prioritize::reclaim_frame_inner
-    //@subst reclaim_frame_inner<B>(=>reclaim_frame_inner(
-    //@subst buffer: &mut Buffer<Frame<B>>=>buffer: &mut Buffer
-    //@subst store: &mut Store=>store: &mut Stream
-    //@subst frame: frame::Data<Prioritized<B>>=>frame: frame::Data<Prioritized>
-    //@subst_re \)\s*->\s*bool\s*where\s*B:\s*Buf,=>) -> bool
-    //@subst InFlightData::Nothing => panic!("wasn't expecting a frame to reclaim"), ==>> InFlightData::Nothing => { assert(false); return false; }
-    //@subst_re let mut frame = frame\.map\(\|prioritized\| \{.*?\}\);=>let (mut frame, e2) = unwrap_prioritized(frame); eos = e2;
-    //@subst let mut stream = store.resolve(key);=>
-    //@subst self.push_back_frame(frame.into(), buffer, &mut stream);=>self.push_back_frame(Frame::Data(frame), buffer, store);
-    //@ret r
-    //@spec     requires
-    //@spec         // the caller (buffer_pending) recorded which stream's DATA frame it handed to the codec
-    //@spec         old(self).in_flight_data_frame != InFlightData::Nothing,
-    //@spec         old(self).in_flight_data_frame matches InFlightData::DataFrame(k) ==> k == frame.data.stream,
-    //@spec         // `store` resolves that key; a stream whose DATA was in the codec has been opened
-    //@spec         old(store).key == frame.data.stream && !old(store).is_pending_open,
-    //@spec     ensures
-    //@spec         final(self).in_flight_data_frame == InFlightData::Nothing,
-    //@spec         final(self).flow == old(self).flow,
-    //@spec         // the queue was cleared meanwhile (reset): the frame is dropped, nothing is re-queued
-    //@spec         old(self).in_flight_data_frame == InFlightData::Drop ==> !r && *final(store) == *old(store),
-    //@spec         // fully written: nothing to re-queue
-    //@spec         old(self).in_flight_data_frame != InFlightData::Drop && frame.data.inner_rem == 0 ==> !r && *final(store) == *old(store),
-    //@spec         // partially written: the unsent tail goes back to the FRONT of its stream's queue, with the original
-    //@spec         // END_STREAM if the queued frame had it
-    //@spec         old(self).in_flight_data_frame != InFlightData::Drop && frame.data.inner_rem > 0 ==> r
-    //@spec             && final(store).pending_send@.len() == old(store).pending_send@.len() + 1
-    //@spec             && final(store).pending_send@.subrange(1, final(store).pending_send@.len() as int) =~= old(store).pending_send@
-    //@spec             && (final(store).pending_send@[0] matches Frame::Data(d) && d.data.rem == frame.data.inner_rem
-    //@spec                 && d.eos == (frame.eos || frame.data.end_of_stream) && d.stream_id == frame.stream_id)
-    //@spec             && final(store).send_flow == old(store).send_flow && final(store).buffered_send_data == old(store).buffered_send_data,
-    //@end
-
-    /// The PushPromise arm of pop_frame looks a SECOND stream up in the store (the promised one) and moves it from
-    /// "waiting for its PUSH_PROMISE" to pending_send / pending_open.  NOT VERIFIED in this unit: replaced by this
-    /// external call (listed substitution); it does not touch the popped stream or any window.
-    #[verifier::external_body]
-    pub fn release_promised_stream(&mut self, pp: &frame::PushPromise, store: &mut Store, counts: &mut Counts)
-        ensures final(self).flow == old(self).flow && final(self).in_flight_data_frame == old(self).in_flight_data_frame
-            && final(self).max_buffer_size == old(self).max_buffer_size && final(store).sum() == old(store).sum(),
-    { unimplemented!() }
-
-    /// Connection-level invariant (I-send-pool): the unassigned pool plus everything assigned to streams is
-    /// backed by the connection window.  `held` = capacity of the stream currently taken out of the store.
-    pub open spec fn pool_inv(self, store: Store, held: int) -> bool {
-        &&& 0 <= self.flow.a() && store.sum() >= 0
-        &&& self.flow.a() + store.sum() + held <= self.flow.w()
-        &&& self.flow.w() <= 0x7fff_ffff
-    }
-
-    //@extract src/proto/streams/prioritize.rs Prioritize::pop_frame
-    //@attr #[verifier::exec_allows_no_decreases_clause]
-    //@subst match self.pending_send.pop(store) {=>match self.pending_send.pop_idle(store) {
-    //@subst pop_frame<B>(=>pop_frame(
-    //@subst buffer: &mut Buffer<Frame<B>>=>buffer: &mut Buffer
-    //@subst_re \)\s*->\s*Option<Frame<Prioritized<B>>>\s*where\s*B:\s*Buf,=>) -> (out: Option<Frame<Prioritized>>)
-    //@subst cmp::min(=>min_usize(
-    //@subst frame.into()=>Frame::Data(frame)
-    //@subst cfg!(debug_assertions)=>false
-    //@subst assert!(stream.id > self.last_opened_id);=>
-    //@subst_re Frame::Data\(frame\.map\(\|buf\| Prioritized \{.*?\}\)\)=>Frame::Data(wrap_prioritized(frame, len, eos, stream.key()))
-    //@subst_re Some\(frame\) => frame\.map\(\|_\| \{.*?\}\), ==>> Some(frame) => map_non_data(frame),
-    //@subst_re Some\(Frame::PushPromise\(pp\)\) => \{.*?Frame::PushPromise\(pp\)\s*\} ==>> Some(Frame::PushPromise(pp)) => { self.release_promised_stream(&pp, store, counts); Frame::PushPromise(pp) }
-    //@subst_re self\.pending_send\.push\(&mut stream\);\s*continue;=>self.pending_send.push(&mut stream); store.put_back(stream); continue;
-    //@subst_re stream\.pending_send\.push_front\(buffer, Frame::Data\(frame\)\);\s*continue;=>proof { lemma_queued_push_front(Frame::Data(frame), stream.pending_send@); } stream.pending_send.push_front(buffer, Frame::Data(frame)); store.put_back(stream); continue;
-    //@before let frame = match stream.pending_send.pop_front(buffer) {=>proof { if stream.pending_send@.len() > 0 { lemma_queued_first(stream.pending_send@); } }
-    //@subst counts.transition_after(stream, is_pending_reset);=>counts.transition_after(stream, is_pending_reset, store);
-    //@spec     requires
-    //@spec         old(self).pool_inv(*old(store), 0),
-    //@spec         16_384 <= max_len <= 0xff_ffff,
-    //@spec         // buffer_pending reclaims the frame the codec finished before it asks for the next one
-    //@spec         old(self).in_flight_data_frame == InFlightData::Nothing,
-    //@spec     ensures
-    //@spec         final(self).pool_inv(*final(store), 0),
-    //@spec         final(self).in_flight_data_frame == old(self).in_flight_data_frame,
-    //@spec         out matches Some(Frame::Data(d)) ==> {
-    //@spec             let len = d.data.limit as int;
-    //@spec             // C02: what leaves is charged to the connection window exactly, within it, within the max frame size;
-    //@spec             // non-empty DATA needs a positive connection window
-    //@spec             &&& final(self).flow.w() == old(self).flow.w() - len
-    //@spec             &&& len <= max_len && len <= old(self).flow.w()
-    //@spec             &&& (len > 0 ==> old(self).flow.w() > 0)
-    //@spec             // C01: the piece is the first `len` bytes of the queued payload; END_STREAM only on the last piece
-    //@spec             &&& len <= d.data.inner_rem
-    //@spec             &&& d.eos == (d.data.end_of_stream && len == d.data.inner_rem)
-    //@spec         },
-    //@spec         !(out matches Some(Frame::Data(_))) ==> final(self).flow.w() == old(self).flow.w(),
-    //@loop 0     invariant
-    //@loop 0         self.pool_inv(*store, 0),
-    //@loop 0         self.flow.w() == old(self).flow.w(),
-    //@loop 0         self.in_flight_data_frame == InFlightData::Nothing && old(self).in_flight_data_frame == InFlightData::Nothing,
-    //@loop 0         16_384 <= max_len <= 0xff_ffff,
-    //@end
-
-    //@extract src/proto/streams/prioritize.rs Prioritize::send_data
-    //@subst send_data<B>(=>send_data(
-    //@subst frame: frame::Data<B>=>frame: frame::Data<Payload>
-    //@subst buffer: &mut Buffer<Frame<B>>=>buffer: &mut Buffer
-    //@subst stream: &mut store::Ptr=>stream: &mut Stream
-    //@subst_re \)\s*->\s*Result<\(\), UserError>\s*where\s*B:\s*Buf,=>) -> (r: Result<(), UserError>)
-    //@subst cmp::min(=>min_usize(
-    //@subst frame.into()=>Frame::Data(frame)
-    //@before if frame.is_end_stream() {=>proof { lemma_queued_push(stream.pending_send@, Frame::Data(frame)); }
-    //@spec     requires
-    //@spec         stream_inv(*old(stream)) && wf_pool(*old(self)),
-    //@spec         old(self).flow.a() + old(stream).send_flow.a() <= 0x7fff_ffff,
-    //@spec         !(old(stream).is_pending_open && old(stream).is_pending_push),
-    //@spec         old(stream).buffered_send_data + frame.data.rem <= 0xff_ffff_ffff,
-    //@spec     ensures
-    //@spec         // C04/C13: refused unless the send half is streaming; a refusal queues nothing and changes nothing
-    //@spec         frame.data.rem > 0x7fff_ffff ==> r == Err::<(), UserError>(UserError::PayloadTooBig),
-    //@spec         frame.data.rem <= 0x7fff_ffff && !old(stream).state.send_streaming() ==>
-    //@spec             r == Err::<(), UserError>(if old(stream).state.closed() { UserError::InactiveStreamId } else { UserError::UnexpectedFrameType }),
-    //@spec         frame.data.rem <= 0x7fff_ffff && old(stream).state.send_streaming() ==> r.is_ok(),
-    //@spec         r.is_err() ==> *final(stream) == *old(stream) && final(self).flow == old(self).flow,
-    //@spec         // C01: exactly this frame, unmodified, at the BACK of the stream's queue; END_STREAM closes the send half
-    //@spec         r.is_ok() ==> final(stream).pending_send@ == old(stream).pending_send@.push(Frame::Data(frame)),
-    //@spec         r.is_ok() ==> final(stream).buffered_send_data == old(stream).buffered_send_data + frame.data.rem,
-    //@spec         r.is_ok() ==> final(stream).state.inner == (if frame.eos { old(stream).state.after_send_end_stream() } else { old(stream).state.inner }),
-    //@spec         // C16/C02: queueing data never touches a window and creates no capacity; the stream stays well formed
-    //@spec         final(stream).send_flow.w() == old(stream).send_flow.w() && final(self).flow.w() == old(self).flow.w(),
-    //@spec         final(self).flow.a() + final(stream).send_flow.a() <= old(self).flow.a() + old(stream).send_flow.a(),
-    //@spec         r.is_ok() ==> wf_send(*final(stream)) && queued_bytes(final(stream).pending_send@) <= final(stream).buffered_send_data,
-    //@spec         // C06: with capacity in hand (or for an empty first frame) the stream is scheduled and the connection woken
-    //@spec         r.is_ok() && (final(stream).send_flow.a() > 0 || final(stream).buffered_send_data == 0) && !old(stream).is_pending_open && !old(stream).is_pending_push
-    //@spec             ==> final(stream).is_pending_send && *final(task) is None,
-    //@end
-
-    //@extract src/proto/streams/prioritize.rs Prioritize::assign_connection_capacity
-    //@attr #[verifier::exec_allows_no_decreases_clause]
-    //@subst assign_connection_capacity<R>(=>assign_connection_capacity(
-    //@subst store: &mut R=>store: &mut Store
-    //@subst_re \)\s*where\s*R:\s*Resolve,=>)
-    //@subst let _res = self.flow.assign_capacity(inc);=>let _res = self.flow.assign_capacity(inc); assert(_res.is_ok());
-    //@subst_re if !\(stream\.state\.is_send_streaming\(\) \|\| stream\.buffered_send_data > 0\) \{\s*continue;\s*\}=>if !(stream.state.is_send_streaming() || stream.buffered_send_data > 0) { store.put_back(stream); continue; }
-    //@subst_re counts\.transition\(stream, \|_, stream\| \{.*?\}\)=>{ let mut stream = stream; let is_pending_reset = stream.is_pending_reset_expiration(); self.try_assign_capacity(&mut stream); proof { assert(stream_inv(stream)); } counts.transition_after(stream, is_pending_reset, store); }
-    //@spec     requires
-    //@spec         sz_ok(inc),
-    //@spec         wf_pool(*old(self)) && old(store).sum() >= 0,
-    //@spec         old(self).flow.a() + inc + old(store).sum() <= 0x7fff_ffff,
-    //@spec     ensures
-    //@spec         // I-send-pool, for ANY number of waiting streams: the new credit is in the pool or assigned — not lost, not doubled
-    //@spec         final(self).flow.a() + final(store).sum() == old(self).flow.a() + inc + old(store).sum(),
-    //@spec         final(self).flow.a() >= 0 && final(store).sum() >= 0,
-    //@spec         final(self).flow.w() == old(self).flow.w(),
-    //@spec         final(self).in_flight_data_frame == old(self).in_flight_data_frame && final(self).max_buffer_size == old(self).max_buffer_size,
-    //@loop 0     invariant
-    //@loop 0         self.flow.a() + store.sum() == old(self).flow.a() + inc + old(store).sum(),
-    //@loop 0         self.flow.a() >= 0 && store.sum() >= 0 && self.flow.a() <= 0x7fff_ffff,
-    //@loop 0         self.flow.w() == old(self).flow.w(),
-    //@loop 0         self.in_flight_data_frame == old(self).in_flight_data_frame && self.max_buffer_size == old(self).max_buffer_size,
-    //@loop 0         old(self).flow.a() + inc + old(store).sum() <= 0x7fff_ffff,
-    //@end
-
-    //@extract src/proto/streams/prioritize.rs Prioritize::recv_connection_window_update
-    //@ret r
-    //@spec     requires
-    //@spec         sz_ok(inc) && inc >= 1,
-    //@spec         old(self).pool_inv(*old(store), 0),
-    //@spec     ensures
-    //@spec         // RFC 9113 6.9.1: the window may not exceed 2^31-1: FLOW_CONTROL_ERROR and nothing changes
-    //@spec         old(self).flow.w() + inc > 0x7fff_ffff ==> r == Err::<(), Reason>(Reason::FLOW_CONTROL_ERROR) && final(self).flow == old(self).flow && final(store).sum() == old(store).sum(),
-    //@spec         old(self).flow.w() + inc <= 0x7fff_ffff ==> r.is_ok() && final(self).flow.w() == old(self).flow.w() + inc
-    //@spec             && final(self).flow.a() + final(store).sum() == old(self).flow.a() + inc + old(store).sum()
-    //@spec             && final(self).pool_inv(*final(store), 0),
-    //@end
-}
+//@include prioritize.inc
 
 proof fn vacuity_probe_prioritize()
     ensures false,
